@@ -33,7 +33,7 @@ func tokens() []string {
 
 func slotRegistries() []string {
 	return []string{
-		"h", "h:5", "[::1]:5", "[::1]", "[2001:db8::8:1]:443", "H", "h_", "reg.example.com", "1.2.3.4:80", "-", "localhost:5000",
+		"h", "h:5", "[::1]:5", "[::1]", "[2001:db8::8:1]:443", "H", "h_", "reg.example.com", "1.2.3.4:80", "-", "localhost:5000", "docker.io", "registry-1.docker.io",
 		"", "u@h", "u:p@h:5", "h:x", "h x", "h?", "h#f", "h\\",
 		// not judged classes
 		"h:", ":5", "a:b:5", "h%41", "h+x", "[::1", "[x]",
